@@ -471,6 +471,8 @@ def judge_session(ctx, transport, auto, faults, sample=False, route_back=False):
         ctx.count("driver_did_not_finish_recorded")
     if s.loop.exceptions:
         ctx.count("loop_exceptions_recorded", len(s.loop.exceptions))
+    if s.gw.receive_path_exceptions:
+        ctx.count("receive_path_exceptions_recorded", len(s.gw.receive_path_exceptions))
     if s.tasks_alive:
         ctx.count("tasks_alive_at_end_recorded", s.tasks_alive)
     if s.user_disconnect_returned:
